@@ -305,6 +305,15 @@ impl std::fmt::Display for Point {
 #[derive(Debug, Clone, PartialEq, Eq)]
 pub struct PointParseError(pub String);
 
+impl Point {
+    /// An *inherent* `from_str` with another grammar (`x,y`) than the `FromStr` impl (`x;y`): generated code
+    /// that is meant to use the inner type's `FromStr` must not pick this one up by path resolution.
+    pub fn from_str(s: &str) -> Result<Point, PointParseError> {
+        let (a, b) = s.split_once(',').ok_or_else(|| PointParseError("no ','".into()))?;
+        Ok(Point { x: a.parse::<i16>().map_err(|e| PointParseError(format!("x: {e:?}")))?, y: b.parse::<i16>().map_err(|e| PointParseError(format!("y: {e:?}")))? })
+    }
+}
+
 impl std::str::FromStr for Point {
     type Err = PointParseError;
     fn from_str(s: &str) -> Result<Self, Self::Err> {
